@@ -30,7 +30,7 @@ func init() {
 		Subs: []*run.Sub{
 			{Name: "arcs", N: func(t string) uint64 {
 				if t == "thorough" {
-					return 30_000_000
+					return 150_000_000
 				}
 				return 1_500_000
 			}, Run: c06Arc,
